@@ -59,7 +59,7 @@ func genStreamSc(g *simrt.Tape, tier string) any {
 			case 0:
 				ov.Announce = uint32(sc.Max + 1 + g.Draw(16))
 			case 1:
-				ov.Announce = 0x03000000 // 48 MiB: far above every limit used, yet harmless if a broken implementation allocates it
+				ov.Announce = 0x00800000 // 8 MiB: far above every limit used, yet harmless if a broken implementation allocates it
 			case 2:
 				ov.Announce = uint32(sc.Max) * 2
 			default:
